@@ -19,9 +19,19 @@ pub fn harnesses() -> Vec<Harness> {
     }]
 }
 
-fn data_of(len: usize) -> Bytes {
+/// content classes: 0 = pseudo-random bytes (all chunks differ), 1 = all zeros, 2 = periodic with the period of a piece
+/// (1 and 2: several chunks of one data map are byte-identical and share one address)
+fn data_of(len: usize, class: usize) -> Bytes {
     let mut x: u32 = 0x9e37_79b9;
-    Bytes::from((0..len).map(|_| { x ^= x << 13; x ^= x >> 17; x ^= x << 5; (x >> 8) as u8 }).collect::<Vec<u8>>())
+    let mut next = || { x ^= x << 13; x ^= x >> 17; x ^= x << 5; (x >> 8) as u8 };
+    match class {
+        0 => Bytes::from((0..len).map(|_| next()).collect::<Vec<u8>>()),
+        1 => Bytes::from(vec![0u8; len]),
+        _ => {
+            let period: Vec<u8> = (0..PIECE).map(|_| next()).collect();
+            Bytes::from((0..len).map(|i| period[i % PIECE]).collect::<Vec<u8>>())
+        }
+    }
 }
 
 fn record_of(c: &Chunk) -> (RecordKey, Record) {
@@ -37,10 +47,12 @@ fn c14_round_trip() {
     // (in the real crate both are the same constant; chunks of the ideal self-encryption are <= PIECE)
     let t = shim::max_chunk_size();
     assume(SymU::<64>::konst(PIECE as u64).sle(t).0);
-    let lens = [0usize, 1, 2, 3, 4, 3 * PIECE - 1, 3 * PIECE, 3 * PIECE + 1, 4 * PIECE, 10 * PIECE, 12 * PIECE + 5, 60 * PIECE + 7];
-    let n_lens = std::env::var("C14_LENS").ok().and_then(|s| s.parse().ok()).unwrap_or(lens.len());
+    let lens = [0usize, 1, 2, 3, 4, 3 * PIECE - 1, 3 * PIECE, 3 * PIECE + 1, 4 * PIECE, 10 * PIECE, 12 * PIECE + 5, 60 * PIECE + 7, 7 * PIECE + 3, 200 * PIECE + 1];
+    // quick tier: the first 12 lengths (up to two additional levels); thorough: all (three additional levels)
+    let n_lens = std::env::var("C14_LENS").ok().and_then(|s| s.parse().ok()).unwrap_or(12);
     let len = lens[choice(n_lens.min(lens.len()))];
-    let data = data_of(len);
+    let class = choice(3);
+    let data = data_of(len, class);
     let res = crate::self_encryption::encrypt(data.clone());
     if len < crate::shim::self_encryption::MIN_ENCRYPTABLE_BYTES {
         cover("too_small");
@@ -55,13 +67,14 @@ fn c14_round_trip() {
         }
     };
     let levels = shim::encrypt_calls() - 1;
-    note(format!("len={len} additional_levels={levels} data_map_chunk={}B chunks={}", root.serialised_size(), chunks.len()));
+    cover(["random_content", "zero_content", "periodic_content"][class]);
+    note(format!("len={len} content={} additional_levels={levels} data_map_chunk={}B chunks={}", ["random", "zeros", "periodic"][class], root.serialised_size(), chunks.len()));
     cover(["zero_levels", "one_level", "two_levels", "more_levels"][levels.min(3)]);
     // every produced chunk is within the maximum and addressed by the hash of its content
-    check("chunks:data_map_chunk_within_maximum", SymU::<64>::konst(root.serialised_size() as u64).sle(t).0);
+    check("chunks:data_map_chunk_within_maximum", SymU::<64>::konst(root.serialised_size().0 as u64).sle(t).0);
     check_bool("chunks:data_map_chunk_content_addressed", *root.name() == XorName::from_content(root.value()));
     for c in &chunks {
-        check("chunks:chunk_within_maximum", SymU::<64>::konst(c.serialised_size() as u64).sle(t).0);
+        check("chunks:chunk_within_maximum", SymU::<64>::konst(c.serialised_size().0 as u64).sle(t).0);
         check_bool("chunks:chunk_content_addressed", *c.name() == XorName::from_content(c.value()));
     }
     // the same input yields the same data map and chunk addresses
